@@ -37,6 +37,8 @@ func init() { runners["C18"] = runC18 }
 const c18Header = "\nset -e\nset +x\n"
 const c18DummyTag = "EOFAAAAAAAAAA"
 
+const c18Pub, c18Sec = "ssh-rsa AAAAB3Nza+/= verif@host", "-----BEGIN KEY-----\nb3BlbnNzaC1rZXk\n-----END KEY-----"
+
 var c18Alphabet = []byte{'$', '`', '"', '\'', '\\', '\n', 'E', 'O', 'F', '(', ')', 'a', 'H'}
 
 // ---------- the real shell
@@ -103,10 +105,14 @@ func (e *shEnv) run(script []byte, nprobes int) shResult {
 	return e.runWith("/bin/sh", script, nprobes)
 }
 
-func (e *shEnv) runWith(shell string, script []byte, nprobes int) shResult {
+func (e *shEnv) prepare() {
 	os.RemoveAll(e.work)
 	os.RemoveAll(filepath.Join(e.home, ".ssh"))
 	must(os.MkdirAll(e.work, 0o755))
+}
+
+func (e *shEnv) runWith(shell string, script []byte, nprobes int) shResult {
+	e.prepare()
 	ctx, cancel := context.WithTimeout(context.Background(), 20*time.Second)
 	defer cancel()
 	cmd := exec.CommandContext(ctx, shell)
@@ -119,6 +125,11 @@ func (e *shEnv) runWith(shell string, script []byte, nprobes int) shResult {
 	if ctx.Err() != nil {
 		return shResult{Kind: "hang"}
 	}
+	return e.collect(nprobes)
+}
+
+// collect reads what the probes wrote into the working directory
+func (e *shEnv) collect(nprobes int) shResult {
 	r := shResult{Kind: "ran", Values: make([][]byte, nprobes)}
 	expected := map[string]bool{"out_home": true, "out_sentinel": true, "out_exports": true, "out_done": true}
 	for i := 0; i < nprobes; i++ {
@@ -471,7 +482,11 @@ func (c *c18) oracle(kind string, list []kv, res shResult, desc map[string]inter
 		return false
 	}
 	for i, e := range list {
-		if string(res.Values[i]) != e.V { // exactly: trailing newlines included
+		if string(res.Values[i]) != e.V && trimNL(string(res.Values[i])) == trimNL(e.V) {
+			// the property promises the value "up to trailing newlines"; exactness (which the current
+			// builders have and the theorems state) is compared by L1 through the Ran term
+			o.Stat("value_differs_in_trailing_newlines_only")
+		} else if string(res.Values[i]) != e.V {
 			o.Fail("verbatim", fmt.Sprintf("%s: variable %s configured as %q reached the shell as %q", kind, e.K, e.V, res.Values[i]), "verbatim", desc)
 			ok = false
 			break
@@ -491,6 +506,10 @@ func (c *c18) oracle(kind string, list []kv, res shResult, desc map[string]inter
 
 // one environment through one builder: L1 case, real shell, L2, model-validation case
 func (c *c18) runEnv(kind string, m map[string]string, pub, sec string) {
+	c.runEnvL(kind, m, pub, sec, true)
+}
+
+func (c *c18) runEnvL(kind string, m map[string]string, pub, sec string, l1 bool) {
 	o := c.o
 	desc := map[string]interface{}{"op": "env", "kind": kind, "pub": byteList([]byte(pub)), "sec": byteList([]byte(sec))}
 	keys := make([]string, 0, len(m))
@@ -508,6 +527,22 @@ func (c *c18) runEnv(kind string, m map[string]string, pub, sec string) {
 		o.Fail("names", "SetAll rejected a map of valid keys", "names", desc)
 		return
 	}
+	c.runBuilt(kind, e, m, pub, sec, desc, l1)
+}
+
+// runBuilt: the Environments object [e] is expected to hold exactly [m] (and the certificate): build the
+// start-up script of [kind] from it, L1 case (when l1; very long scripts are judged by L2 only), real shell, L2
+func (c *c18) runBuilt(kind string, e commservices.Environments, m map[string]string, pub, sec string, desc map[string]interface{}, l1 bool) bool {
+	o := c.o
+	keys := make([]string, 0, len(m))
+	for k := range m {
+		keys = append(keys, k)
+	}
+	sort.Strings(keys)
+	sorted := make([]kv, len(keys))
+	for i, k := range keys {
+		sorted[i] = kv{k, m[k]}
+	}
 	var b buildObs
 	entry := ""
 	probeKeys := keys // the probes print the variables in sorted order (for sshsb they are the entrypoint)
@@ -522,10 +557,10 @@ func (c *c18) runEnv(kind string, m map[string]string, pub, sec string) {
 	if b.Kind != "ok" {
 		if kind == "dcmd" && certErr && b.Kind == "err" {
 			o.AddCase(fmt.Sprintf("CDcmd %s %s %s %s false [] [] NotRun", coqEnv(sorted), coqStr(c18DummyTag), coqStr(pub), coqStr(sec)), desc, "dcmderr:"+pub+"|"+sec, true)
-			return
+			return true
 		}
 		o.Fail("builder_total", kind+": the builder returned "+b.Kind, "builder", desc)
-		return
+		return false
 	}
 	order, rest, ok := parseScript(b.Script, m)
 	list := sorted
@@ -566,12 +601,17 @@ func (c *c18) runEnv(kind string, m map[string]string, pub, sec string) {
 	for _, e := range sorted {
 		o.Stat("value_" + c18ValueClass(e.V))
 	}
-	c.oracle(kind, sorted, res, desc)
+	good := c.oracle(kind, sorted, res, desc)
 	if c.sh.bash != "" && !c.sh.shIsBash { // the same script through bash as well (L2 only)
 		bres := c.sh.runWith(c.sh.bash, []byte(full), len(probeKeys))
 		c.nsh++
 		o.Stat("bash_runs")
-		c.oracle(kind+"(bash)", sorted, bres, desc)
+		good = c.oracle(kind+"(bash)", sorted, bres, desc) && good
+	}
+	if !l1 {
+		o.CountEval("b:"+key, nontrivial)
+		o.Stat("l2_only_long_script")
+		return good
 	}
 	ran := c.shresTerm(sorted, res)
 	if kind == "ssh" {
@@ -579,6 +619,7 @@ func (c *c18) runEnv(kind string, m map[string]string, pub, sec string) {
 	} else {
 		o.AddCase(fmt.Sprintf("CDcmd %s %s %s %s true %s %s %s", coqEnv(list), coqStr(tag), coqStr(pub), coqStr(sec), coqStr(b.Script), coqStr(probes), ran), desc, "b:"+key, nontrivial)
 	}
+	return good
 }
 
 func (c *c18) shresTerm(list []kv, res shResult) string {
@@ -652,6 +693,26 @@ func (c *c18) randomHeredocValue() string {
 	}
 }
 
+// values for goatcore's own scripts: randomValue plus references to sibling variables of the same
+// environment, CR LF, backslash-newline (kept out of the here-document validation stream)
+func (c *c18) randomEnvValue() string {
+	v := c.randomValue()
+	if c.rng.Chance(30) {
+		extra := []string{"$A", "${a}", "$B$k", "\r\n", "\\\n", "'\\''", "$'\\x41'", "\r", " ", "\t"}
+		x := extra[c.rng.Intn(len(extra))]
+		switch c.rng.Intn(3) {
+		case 0:
+			v = x + v
+		case 1:
+			v += x
+		default:
+			i := c.rng.Intn(len(v) + 1)
+			v = v[:i] + x + v[i:]
+		}
+	}
+	return v
+}
+
 func (c *c18) randomValue() string {
 	rng := c.rng
 	toks := []string{"$HOME", "${HOME}", "$(echo pwn)", "`echo pwn`", "$(: > canary)", "`: > canary`", "\\", "\\\\", "\\$", "\\`", "\n", "\n", "EOF", "EOF\n", "\nEOF\n",
@@ -694,7 +755,12 @@ func runC18(o *Out, rng *RNG, tier string, replay string) {
 		"(2) 1-5 variables with random values up to 60 bytes (shell tokens, multi-line, EOF lines, trailing backslash, bytes 0x01-0xff), both builders, " +
 		"dcmd also with SSH certificates and the certificate error cases; every generated script is fed to the real /bin/sh and the variables printed. " +
 		"each also through bash when present (L2). (3) model validation of the mini-sh: the same scripts, plus the harness' own HERE-DOCUMENT scripts (the shapes goatcore used before: unquoted delimiter, tag collision), real /bin/sh vs mini-sh. " +
-		"(4) names: every key over {A,a,_,1,-,SP,=,NL} up to length 3 through Set, random maps through SetAll. " +
+		"(4) names: every key over {A,a,_,1,-,SP,=,NL} up to length 3 through Set, random maps through SetAll; for EVERY byte b the names b, Ab, bA, AbA, A_b, b_A and letters beyond ASCII that fold onto ASCII letters, through Set and through SetAll. " +
+		"(5) second exhaustive family: every single byte 1-255 and every word over {~ : = # ; & | < > * ? [ ] { } ! , SP TAB CR . / - + % @ ^ 0 a A} up to length 2 (quick) / 3 as values. " +
+		"(6) histories on ONE Environments object (directly and through EnvironmentsUnit.Envs(scope)): Set with shell-significant values, overwrite, refused Set/SetAll in between, build - change - build again; every build judged against the harness' reference map. " +
+		"(7) long values (2^k and 2^k+1 bytes for 256..65536, 100 000: position-coded, quotes only, first quote + command after n quote-free bytes, random bytes) and 700 variables in one environment (scripts over 1500 bytes: real shells only). " +
+		"(8) dcmd.Engine.Run with a stand-in container program that is /bin/sh: the start-up script as the engine feeds it, followed by the task's input. " +
+		"(9) names the shell reserves (OPTIND, RANDOM, UID ...): recorded only (extra.reserved_names). " +
 		"Non-trivial: at least one variable / a key that is not empty; distinct by builder + map + certificate, by script bytes, by key."
 	c := &c18{o: o, rng: rng, sh: newShEnv()}
 	defer c.sh.close()
@@ -739,6 +805,9 @@ func runC18(o *Out, rng *RNG, tier string, replay string) {
 		}
 		c.runEnv("ssh", m, "", "")
 		c.runEnv("dcmd", m, "", "")
+		if (lo/batch)%4 == 1 { // the same values next to an SSH certificate (the block that follows the variables)
+			c.runEnvL("dcmd", m, c18Pub, c18Sec, thorough || (lo/batch)%16 == 1)
+		}
 	}
 
 	// (2) random environments
@@ -746,7 +815,7 @@ func runC18(o *Out, rng *RNG, tier string, replay string) {
 	if thorough {
 		nRandom = 1500
 	}
-	names := []string{"A", "a", "HOME_DIR", "Path", "X_", "A__B", "SOME_KEY", "k", "EOF", "set", "export", "cat", "PS", "IFS_", "B"}
+	names := []string{"A", "a", "HOME_DIR", "Path", "X_", "A__B", "SOME_KEY", "k", "EOF", "set", "export", "cat", "PS", "IFS_", "B", "IFS", "LANG", "LC_ALL", "ENV", "CDPATH"}
 	for i := 0; i < nRandom; i++ {
 		for _, kind := range []string{"ssh", "dcmd"} {
 			nv := 1 + rng.Intn(5)
@@ -755,11 +824,11 @@ func runC18(o *Out, rng *RNG, tier string, replay string) {
 			}
 			m := map[string]string{}
 			for len(m) < nv {
-				m[names[rng.Intn(len(names))]] = c.randomValue()
+				m[names[rng.Intn(len(names))]] = c.randomEnvValue()
 			}
 			pub, sec := "", ""
 			if kind == "dcmd" && rng.Chance(25) {
-				pub, sec = "ssh-rsa AAAAB3Nza+/= verif@host", "-----BEGIN KEY-----\nb3BlbnNzaC1rZXk\n-----END KEY-----"
+				pub, sec = c18Pub, c18Sec
 				switch rng.Intn(6) {
 				case 0:
 					pub = ""
@@ -770,6 +839,12 @@ func runC18(o *Out, rng *RNG, tier string, replay string) {
 			c.runEnv(kind, m, pub, sec)
 		}
 	}
+	// histories on one Environments object, long values / many variables, the engine that feeds the script
+	c.secondAlphabet(thorough)
+	c.histories(thorough)
+	c.longValues(thorough)
+	c.engineProbe(thorough)
+	c.reservedNames()
 	// InitSequence(nil)
 	if b := buildDcmd(nil); b.Kind == "ok" {
 		o.AddCase("CDcmdNil "+coqStr(b.Script), map[string]interface{}{"op": "dcmd_nil"}, "nil", true)
@@ -852,21 +927,36 @@ func runC18(o *Out, rng *RNG, tier string, replay string) {
 	o.Extra["sh_invocations"] = c.nsh
 }
 
+// independent statement of "plain identifier": ASCII letters and underscores, starting with a letter
+func c18PlainIdent(k string) bool {
+	if k == "" {
+		return false
+	}
+	for i := 0; i < len(k); i++ {
+		ch := k[i]
+		letter := ch >= 'A' && ch <= 'Z' || ch >= 'a' && ch <= 'z'
+		if !(letter || (i > 0 && ch == '_')) {
+			return false
+		}
+	}
+	return true
+}
+
 // names: Set on every key over a small alphabet, SetAll on random maps
 func (c *c18) names(thorough bool) {
 	o, rng := c.o, c.rng
-	plainIdent := func(k string) bool { // independent statement: letters and underscores, starting with a letter
-		if k == "" {
-			return false
+	plainIdent := c18PlainIdent
+	var (
+		sweeping  bool
+		group     []string
+		groupKeys [][]int
+	)
+	flush := func() {
+		if len(group) > 0 {
+			o.AddCase("CKeys "+coqList(group), map[string]interface{}{"op": "set_sweep", "keys": groupKeys}, fmt.Sprint("ks:", len(o.cases)), false)
+			o.Evaluations-- // counted key by key above
 		}
-		for i := 0; i < len(k); i++ {
-			ch := k[i]
-			letter := ch >= 'A' && ch <= 'Z' || ch >= 'a' && ch <= 'z'
-			if !(letter || (i > 0 && ch == '_')) {
-				return false
-			}
-		}
-		return true
+		group, groupKeys = nil, nil
 	}
 	setOne := func(k string) {
 		e := envs.NewEnvironments()
@@ -885,14 +975,23 @@ func (c *c18) names(thorough bool) {
 			return
 		}
 		all := e.All()
-		_, stored := all[k]
-		if accepted != plainIdent(k) || stored != accepted || len(all) > 1 {
+		val, stored := all[k]
+		if accepted != plainIdent(k) || stored != accepted || (accepted && (len(all) != 1 || val != "x")) || (!accepted && len(all) != 0) {
 			o.Fail("names", fmt.Sprintf("Set(%q): accepted=%v stored=%v, plain identifier=%v", k, accepted, stored, plainIdent(k)), "names", desc)
 		}
 		if accepted {
 			o.Stat("key_accepted")
 		} else {
 			o.Stat("key_rejected")
+		}
+		if sweeping { // the sweep's observations go to the model in groups of 100 (one CKeys case)
+			o.CountEval("k:"+k, k != "")
+			group = append(group, "("+coqStr(k)+", "+coqBool(accepted)+")")
+			groupKeys = append(groupKeys, byteList([]byte(k)))
+			if len(group) == 100 {
+				flush()
+			}
+			return
 		}
 		o.AddCase(fmt.Sprintf("CKey %s %s", coqStr(k), coqBool(accepted)), desc, "k:"+k, k != "")
 	}
@@ -908,6 +1007,15 @@ func (c *c18) names(thorough bool) {
 		}
 	}
 	rec(nil)
+	// every byte value at every position of short names (the bytes between 'Z' and 'a', '@', '{', DEL,
+	// every digit, every high byte), and look-alikes of letters beyond ASCII - singly, not sampled
+	sweep := c18NameSweep()
+	sweeping = true
+	for _, k := range sweep {
+		setOne(k)
+	}
+	flush()
+	sweeping = false
 	pool := []string{"A", "a", "SOME_KEY", "A_", "A__B", "zZ", "", "_A", "_", "A1", "1A", "A-B", "A B", "A=B", "A.B", "A\n", "É", "A\x00", "$A", "A$", "A;B", "a_b_c", "PATH", "x\ty", "Aé", "A\r"}
 	nRnd := 300
 	if thorough {
@@ -934,28 +1042,16 @@ func (c *c18) names(thorough bool) {
 		nAll = 5000
 	}
 	good := []string{"A", "B", "c", "SOME_KEY", "A_", "k_k"}
-	for i := 0; i < nAll; i++ {
+	setAllOne := func(preWant []kv, m map[string]string, l1 bool) {
 		e := envs.NewEnvironments()
 		var pre []kv
-		for j := rng.Intn(3); j > 0; j-- {
-			k := good[rng.Intn(len(good))]
-			v := fmt.Sprintf("p%d", rng.Intn(100))
-			if e.Set(k, v) == nil {
-				pre = append(pre, kv{k, v})
+		for _, p := range preWant {
+			if e.Set(p.K, p.V) == nil {
+				pre = append(pre, p)
 			}
 		}
 		before := e.All()
-		m := map[string]string{}
 		anyBad := false
-		for j := rng.Intn(5); j > 0; j-- {
-			var k string
-			if rng.Chance(80) {
-				k = good[rng.Intn(len(good))]
-			} else {
-				k = pool[rng.Intn(len(pool))]
-			}
-			m[k] = fmt.Sprintf("v%d", rng.Intn(100))
-		}
 		var list []kv
 		for k, v := range m {
 			list = append(list, kv{k, v})
@@ -995,14 +1091,62 @@ func (c *c18) names(thorough bool) {
 			all = append(all, kv{k, v})
 		}
 		sort.Slice(all, func(a, b int) bool { return all[a].K < all[b].K })
+		if !l1 {
+			o.CountEval(fmt.Sprintf("sa:%v|%v", pre, list), len(list) > 0)
+			return
+		}
 		o.AddCase(fmt.Sprintf("CSetAll %s %s %s %s", coqEnv(pre), coqEnv(list), coqBool(ok), coqEnv(all)), desc, fmt.Sprintf("sa:%v|%v", pre, list), len(list) > 0)
 	}
+	for i := 0; i < nAll; i++ {
+		var pre []kv
+		for j := rng.Intn(3); j > 0; j-- {
+			pre = append(pre, kv{good[rng.Intn(len(good))], fmt.Sprintf("p%d", rng.Intn(100))})
+		}
+		m := map[string]string{}
+		for j := rng.Intn(5); j > 0; j-- {
+			var k string
+			if rng.Chance(80) {
+				k = good[rng.Intn(len(good))]
+			} else {
+				k = pool[rng.Intn(len(pool))]
+			}
+			m[k] = fmt.Sprintf("v%d", rng.Intn(100))
+		}
+		setAllOne(pre, m, true)
+	}
+	// the same name sweep through SetAll (its validation is a code path of its own): one odd name next
+	// to two plain ones, on a store that already holds one of them
+	for i, k := range append(append([]string{}, pool...), sweep...) {
+		if !thorough && i%3 != 0 && plainIdent(k) {
+			continue
+		}
+		setAllOne([]kv{{"A", "p"}}, map[string]string{"A": "v1", "SOME_KEY": "v2", k: "v3"}, thorough || i%8 == 0) // L2 on all, the model on one in eight
+		if !plainIdent(k) {
+			setAllOne(nil, map[string]string{k: "v"}, thorough) // alone in the map, on an empty store
+		}
+	}
+}
+
+// c18NameSweep: for every byte b the names b, Ab, bA, AbA, A_b, b_A; letters outside ASCII that
+// case folding / Unicode classes map onto ASCII letters; invisible characters; long plain names
+func c18NameSweep() []string {
+	var l []string
+	for b := 0; b < 256; b++ {
+		s := string([]byte{byte(b)})
+		l = append(l, s, "A"+s, s+"A", "A"+s+"A", "A_"+s, s+"_A")
+	}
+	l = append(l, "\u212a", "A\u212a", "\u017f", "\u017fA", "A_\u017f", "\uff21", "\u0410", "\u0391", "A\u0131", "\u0130", "A\u00aa", "A\u0301", "A\u200b", "\ufeffA", "A\u00a0",
+		"A\u2028B", "A\xc0\x80", "\xc1\x81", "A\xed\xa0\x80", strings.Repeat("A", 300), strings.Repeat("a_", 400), strings.Repeat("A", 300)+"-", "-"+strings.Repeat("A", 300))
+	return l
 }
 
 // replay of a failure written by bin/verif (case description of an "env" operation)
 func (c *c18) replay(path string) {
 	raw, err := os.ReadFile(path)
 	must(err)
+	if c.replayAudit(raw) {
+		return
+	}
 	var doc struct {
 		Case struct {
 			Op   string     `json:"op"`
